@@ -25,3 +25,4 @@ pub mod a8;
 pub mod w3;
 pub mod g5;
 pub mod g6;
+pub mod round3;
